@@ -24,7 +24,7 @@ RULES = {
     "C09.R1": "no reachable statement mutates an object whose origin is the `records` parameter of process()",
     "C09.R2a": "the only attribute of `settings` written by process() is fft_settings (and its key n)",
     "C09.R2b": "no module-level object is mutated by process()",
-    "C09.R2c": "every FFT length stored by prepare_fft_settings is a fixed point of the next call (idempotent)",
+    "C09.R2c": "process() does not write the caller's settings (else: every FFT length stored by prepare_fft_settings must be a fixed point of the next call)",
     "C09.R3": "numeric fields of the returned result have origin Fresh (no alias of records/settings storage)",
 }
 
@@ -100,10 +100,24 @@ def run(ck: Checker, prog: Program, tier: str):
                              loc=f.loc())
         n_eff_sites += len(s.effects)
 
-    # ---- R2c decision table of prepare_fft_settings
+    # ---- R2c: the FFT length chosen for one call must not become the request of the next
+    s_entry = eng.summary(entry)
+    entry_writes = [e for e in s_entry.effects if e.origin[0] == "P" and e.origin[1] == 1]
     tab = fftlen.extract(prog)
     ck.floor("C09.R2c", len(tab.stores), 3, "stores of the FFT length in prepare_fft_settings")
-    for st in tab.stores:
+    if not entry_writes:
+        ck.ok("C09.R2c", ENTRY, "process() has no effect on the caller's settings: every call starts from the caller's own FFT request",
+              detail=f"{len(tab.stores)} stores in prepare_fft_settings reach only process()'s private copy")
+        stores = []
+    else:
+        stores = tab.stores
+        for (func, text), effs in group_effects(prog, entry_writes).items():
+            e = effs[0]
+            ck.violation("C09.R2c", func, text,
+                         f"process() writes the caller's settings ({describe_effect(e)}): the FFT length chosen for these recordings becomes the "
+                         f"request of the next call with the same settings object (interleaved calls on longer recordings change later results)",
+                         loc=_first_loc(e, func), path=chain_text(e))
+    for st in stores:
         okk, nxt = fftlen.idempotent_after(tab, st)
         from ..model import norm_key
         key = norm_key(st.stmt)
